@@ -292,3 +292,22 @@ func unknownDiscriminator(t *Tape, w []byte, spans []Span) ([]byte, string, bool
 	}
 	return out, fmt.Sprintf("unknown-discriminator %s := %x", describeSpan(s), seg), true
 }
+
+// appendedFields: a frame from a peer on a newer protocol revision - k extra bytes behind the
+// body (before the trailer) and the self-computed length field covering them.  Only for the
+// frame types with a self-computed length.
+func appendedFields(t *Tape, w []byte, name string) ([]byte, bool) {
+	g := frameGeoms[name]
+	if g == nil || !g.Computed || len(w) < g.HeaderLen+g.TrailerLen {
+		return nil, false
+	}
+	k := 1 + t.Intn(12)
+	bodyEnd := len(w) - g.TrailerLen
+	out := append([]byte(nil), w[:bodyEnd]...)
+	out = append(out, noise(t, k)...)
+	out = append(out, w[bodyEnd:]...)
+	cur := uint64(get32(out[g.LenOff:], g.LE))
+	putN(out[g.LenOff:], 4, g.LE, uint64(bodyEnd-g.HeaderLen+k))
+	_ = cur
+	return out, true
+}
